@@ -110,6 +110,9 @@ def oracle_runs(case, obs):
                 op_ino, np_ino = before[os.path.dirname(old)][1], after[os.path.dirname(p)][1]
                 if op_ino != np_ino:
                     return f"non-directory {old!r} changed its parent directory in directory mode"
+    v = fsrun.refused_valid_name(case, obs)
+    if v:
+        return v
     # 4. an escaping or invalid generated path is refused with status 1 before the file is touched
     for d, rel, g in obs["gens"]:
         if g[0] == "I":
